@@ -64,7 +64,7 @@ struct Impl {
     using ControlT = std::false_type;
     #endif
     using StampedReadingBaseT = ReadingBase;
-    static constexpr double max_dt_sec = MAX_DT;
+    static constexpr TAG_T max_dt_sec = MAX_DT;  // (double in generated code; the runtime's own compatibility test accepts any positive constant)
   };
   Est process_model(double dt, const Est& e
     #if HAS_CAL
@@ -91,7 +91,7 @@ int main() {
 """
 
 
-def run_cxx(has_control, has_calibration, t0, max_dt, script):
+def run_cxx(has_control, has_calibration, t0, max_dt, script, tag_type="double"):
     """script: list of ('tick', t_out, readings|None) ; returns (ok, lines | compiler error)."""
     body = []
     for k, (kind, t_out, readings) in enumerate(script):
@@ -109,7 +109,7 @@ def run_cxx(has_control, has_calibration, t0, max_dt, script):
         p = os.path.join(d, "drv.cpp")
         open(p, "w").write(src)
         exe = os.path.join(d, "drv")
-        cmd = ["g++", "-std=c++20", "-O0", "-w", "-I", os.path.join(driver.REPO, "cpp/runtime/include"), f"-DHAS_CAL={int(has_calibration)}", f"-DHAS_CTL={int(has_control)}", f"-DMAX_DT={float(max_dt)!r}", f"-DT0={float(t0)!r}", p, "-o", exe]
+        cmd = ["g++", "-std=c++20", "-O0", "-w", "-I", os.path.join(driver.REPO, "cpp/runtime/include"), f"-DHAS_CAL={int(has_calibration)}", f"-DHAS_CTL={int(has_control)}", f"-DMAX_DT={float(max_dt)!r}" if tag_type != "int" else f"-DMAX_DT={int(max_dt)}", f"-DTAG_T={tag_type}", f"-DT0={float(t0)!r}", p, "-o", exe]
         c = subprocess.run(cmd, capture_output=True, text=True, timeout=300)
         if c.returncode != 0:
             return False, c.stderr[-1500:]
@@ -117,10 +117,15 @@ def run_cxx(has_control, has_calibration, t0, max_dt, script):
         return True, r.stdout.splitlines()
 
 
-def native_c10(has_control, has_calibration, t0, t1, mx):
+def native_c10(has_control, has_calibration, t0, t1, mx, tag_type="double"):
+    """tag_type: the declared type of Impl::Tag::max_dt_sec (float: mx is taken as the float32 nearest to it; int: a whole number)"""
     from checks.C10 import stepping_ok
 
-    ok, out = run_cxx(has_control, has_calibration, t0, mx, [("tick", t1, None)])
+    ok, out = run_cxx(has_control, has_calibration, t0, mx, [("tick", t1, None)], tag_type=tag_type)
+    if tag_type == "float":
+        import numpy as _np
+
+        mx = float(_np.float32(mx))
     if not ok:
         return False, f"does not compile for control={has_control}, calibration={has_calibration}: {out[-300:]}", []
     steps = [float(l.split()[2]) for l in out if l.startswith("CALL pm")]
@@ -193,7 +198,7 @@ def check_c10(run):
 def replay_c10(payload):
     cfg = payload["configuration"]
     inp = payload["inputs"]
-    good, why, steps = native_c10(cfg["has_control"], cfg["has_calibration"], inp["t0"], inp["t1"], inp["max_dt_sec"])
+    good, why, steps = native_c10(cfg["has_control"], cfg["has_calibration"], inp["t0"], inp["t1"], inp["max_dt_sec"], inp.get("tag_type", "double"))
     print(f"replay C++ processUpdate {cfg} {inp}: steps={steps[:12]} -> {why}")
     return good
 
